@@ -1,20 +1,23 @@
 #!/bin/bash
 # tools/seeds_recheck.sh [ids...]: every kept property-breaking change must still apply to the current /repo and
 # still be reported by the checks recorded in its meta.json (regression suite for the checks themselves).
-cd /verif
+VERIF_ALT_OUT=$(mktemp -d /tmp/verif-alt-XXXXXX); export VERIF_ALT_OUT; trap 'rm -rf "$VERIF_ALT_OUT" "$OUT"' EXIT
+HERE=$(cd "$(dirname "$0")/.." && pwd); cd "$HERE"   # the checks of THIS copy (a `vp run` snapshot works)
+SEEDS=${SEEDS_DIR:-$HERE/seeded}   # where the kept changes live (and where carried-over patches are written)
+OUT=$(mktemp /tmp/seedre-XXXXXX.out)
 export GOFLAGS=-mod=mod GOPROXY=off GOSUMDB=off GOTOOLCHAIN=local
-ids=${@:-$(ls seeded)}
+ids=${@:-$(ls $SEEDS)}
 bad=0
 for id in $ids; do
-  checks=$(python3 -c "import json;print(' '.join(json.load(open('seeded/$id/meta.json'))['caught_by']))")
+  checks=$(python3 -c "import json;print(' '.join(json.load(open('$SEEDS/$id/meta.json'))['caught_by']))")
   W=$(mktemp -d /tmp/wt-seedre-XXXXXX); rmdir $W
   git -C /repo worktree add -q --detach $W HEAD || exit 2
   applied=1
-  if ! git -C $W apply /verif/seeded/$id/patch.diff 2>/dev/null; then
+  if ! git -C $W apply $SEEDS/$id/patch.diff 2>/dev/null; then
     # /repo has moved on (fix: commits): carry the change over with a three-way merge and keep the result
-    if ( cd $W && git apply --3way /verif/seeded/$id/patch.diff >/dev/null 2>&1 && git reset -q ); then
-      [ -f seeded/$id/patch.orig.diff ] || cp seeded/$id/patch.diff seeded/$id/patch.orig.diff
-      ( cd $W && git diff ) > seeded/$id/patch.diff
+    if ( cd $W && git apply --3way $SEEDS/$id/patch.diff >/dev/null 2>&1 && git reset -q ); then
+      [ -f $SEEDS/$id/patch.orig.diff ] || cp $SEEDS/$id/patch.diff $SEEDS/$id/patch.orig.diff
+      ( cd $W && git diff ) > $SEEDS/$id/patch.diff
       echo "$id: patch carried over to the current /repo (patch.orig.diff keeps the delivered one)"
     else
       echo "$id: PATCH NO LONGER APPLIES (not even three-way)"; bad=1; applied=0
@@ -22,11 +25,11 @@ for id in $ids; do
   fi
   if [ $applied = 1 ]; then
     for c in $checks; do
-      VERIF_REPO=$W ./check $c --tier quick > /tmp/seedre.out 2>&1; rc=$?
-      n=$(grep -c '^VIOLATION' /tmp/seedre.out)
+      VERIF_REPO=$W ./check $c --tier quick > $OUT 2>&1; rc=$?
+      n=$(grep -c '^VIOLATION' $OUT)
       if [ $rc -eq 1 ] && [ $n -gt 0 ]; then echo "$id: $c reports it ($n)"; else echo "$id: $c DOES NOT REPORT IT (exit $rc)"; bad=1; fi
     done
   fi
-  git -C /repo worktree remove --force $W >/dev/null 2>&1; rm -rf /tmp/verif-alt-out
+  git -C /repo worktree remove --force $W >/dev/null 2>&1; rm -rf "$VERIF_ALT_OUT"/*
 done
 exit $bad
